@@ -47,7 +47,7 @@ ASSUMPTIONS = [
 
 
 def harness_args(tier, seed):
-    n = 1500 if tier == "quick" else 20000
+    n = 3000 if tier == "quick" else 40000
     cli = 60 if tier == "quick" else 400
     return [seed, n, vlib.REPO, cli]
 
